@@ -160,13 +160,15 @@ func tvN(c *checkCtx) int {
 	return 400
 }
 
+func engineInitLine(cs map[string]J) map[string]J {
+	return map[string]J{"db": cs["db"], "query": cs["query"], "qv": cs["qv"], "nv": cs["nv"]}
+}
+
 // engineTV: U3 for the engine family with the given generator features.
 func (c *checkCtx) engineTV(n int, feat string) {
 	gen := filepath.Join(c.work, "tv-"+feat+".ndjson")
 	c.vhRun("gen", "engine", "--seed", strconv.FormatInt(c.seed, 10), "--n", strconv.Itoa(n), "--out", gen, "--opt", "feat="+feat)
-	traces := c.recordTraces("engine", gen, replayOpts{timeout: 8 * time.Second}, func(cs map[string]J) map[string]J {
-		return map[string]J{"db": cs["db"], "query": cs["query"], "qv": cs["qv"], "nv": cs["nv"]}
-	})
+	traces := c.recordTraces("engine", gen, replayOpts{timeout: 8 * time.Second}, engineInitLine)
 	c.validateTraces("engine", "EngineTrace", "EngineTrace.cfg", traces, traceOpts{})
 	if c.id == "C01" {
 		c.bindingSelfTest("EngineTrace", "EngineTrace.cfg", traces, 6)
